@@ -48,8 +48,9 @@ CHECKS["C01"] = {
 CHECKS["C12"] = {
     "text": "Machine-checked invariants (Coq) over SemModel, the step-per-site model of nsync_semaphore_futex.c over a modelled kernel futex "
             "with adversarial EINTR / EAGAIN / early-ETIMEDOUT returns, one owner and ANY number of posters, any schedule: count = #V-#P >= 0, "
-            "success only by a decrementing CAS (no free lunch), ETIMEDOUT only at/after the deadline, owner asleep => count 0 or a wake "
-            "pending (no lost post), solo termination within 3 steps.  CAS values/guards regenerated from the source; skeleton replayed in "
+            "posts made = successful Ps + count + pending posts (C12_conservation), ETIMEDOUT only if the deadline was <= a clock value READ in that "
+            "call (the clock read is its own step; comparison = the translated nsync_time_cmp), owner asleep => count 0 or a wake pending (no lost "
+            "post), an idle owner's next call on a positive count returns 0 in 2 steps (C12_future), solo termination within 4 steps.  CAS values/guards regenerated from the source; skeleton replayed in "
             "lock-step (incl. the timespec passed to the kernel) against the real file on every run.",
     "design_ref": "DESIGN.md section 4, C12",
     "note": "The kernel futex is modelled, not verified (trusted base); replay samples schedules.",
@@ -57,7 +58,7 @@ CHECKS["C12"] = {
 }
 CHECKS["C15"] = {
     "text": "Theorems (Coq) over SemModel for EVERY normalized deadline, any 64-bit seconds incl. before the epoch: no ASSERT failure "
-            "(C15_no_crash), an expired deadline yields the timeout result within 3 own steps (C15_expired_prompt), no early timeout "
+            "(C15_no_crash), an expired deadline yields the timeout result within 4 own steps (C15_expired_prompt), no early timeout "
             "(C15_no_early_timeout); tied to the code by lock-step replay incl. the timespec handed to FUTEX_WAIT.  The entry points above "
             "the semaphore are run on the REAL library and kernel (C and C++ builds) over the boundary deadline set, one child process per case.",
     "design_ref": "DESIGN.md section 4, C15",
@@ -80,12 +81,14 @@ CHECKS["C03"] = {
 }
 CHECKS["C07"] = {
     "text": "Machine-checked invariants (Coq) over OnceModel (one step per atomic site of once.c on the once word; values/guards regenerated "
-            "from the source), for ANY number of callers, objects, variants and schedules: the function starts at most once, no call returns "
-            "before it completed, exactly once if anybody returned, the word is 0/1(with a unique winner)/2, a call on a done once returns at "
-            "its first step without any lock, and no reachable world is stuck.  Lock-step replay of the once-word sites against the real "
-            "once.c and run-count/completion oracles over thousands of schedules on every run.",
+            "from the source), with the call of the once-function as two steps (f-begin / f-end), once_mu / once_cv as abstract lock and timed wait, and an ARBITRARY "
+            "map from once objects to internal lock slots), for ANY number of callers, objects, variants and schedules: at most one thread ever wins "
+            "the 0 -> 1 CAS and at most one f-begin per word (C07_winner_unique), f-end precedes the store of 2 and every return (C07_order, "
+            "C07_not_early), exactly once if anybody returned, spin variants take no lock, a call on a done once returns at its first load touching "
+            "nothing else, and completion stays possible from every reachable world if the function returns and the lock is obtainable (both shown "
+            "necessary).  Lock-step replay of every once.c site AND the function's entry/exit against the real code on every run.",
     "design_ref": "DESIGN.md section 4, C07",
-    "note": "once_mu/once_cv abstract in the model (losers may re-read at any time, justified by their <= 50 ms timed waits); replay samples.",
+    "note": "once_mu/once_cv abstract (a loser's timed wait can always end by its own step); fair-schedule termination not a theorem (coverage.partial).",
     "technique": "Coq inductive invariant over source-regenerated transition system + lock-step trace inclusion",
 }
 CHECKS["C19"] = {
@@ -144,11 +147,14 @@ CHECKS["C11"] = {
             "faithful to their enqueue/dequeue contracts, signal/broadcast split so that cv_dequeue can run between take and store), any "
             "threads/schedules/clock: a returned index names an object that was ready when selected; count only after the deadline was "
             "observed and every dequeue found the record registered; a record woken by a waker implies the caller's semaphore is posted or "
-            "the V is pending; on return no record of the call is on any list or private wake list; unlock after every enqueue and lock iff "
-            "unlock; no step touches a record of a returned call (C13_waker_footprint).  Two-pass lock-step replay; scenario oracles incl. "
+            "the V is pending; the sleep deadline is exactly min (abs_deadline, every ready time of the round) and at that time the timeout step is "
+            "enabled and every object re-examined (C11_sleep_deadline, C11_sleep_timeout_enabled); on return no record of the call is on any list; "
+            "the caller does not hold the mutex at any pc where it can sleep, the unlock follows all count enqueues and precedes every P, and the "
+            "mutex is held again at the return (C11_mutex_state, C11_sleeps_unlocked, C11_mutex_order); no step touches a record of a returned "
+            "call (C13_waker_footprint; footprints compared with the implementation's accesses in the replay).  Two-pass lock-step replay; scenario oracles incl. "
             "'a broadcast completed before the deadline on a cv the call was registered on forbids a timeout result'.",
     "design_ref": "DESIGN.md section 4, C11",
-    "note": "Objects abstract (coverage.partial); C11_mutex in its `_partial` form, the stronger reading refuted with a witness.",
+    "note": "Objects abstract; that the timed P really returns at its deadline is C12 + scheduler (coverage.partial); the stronger mutex reading refuted with a witness.",
     "technique": "Coq inductive invariants over transition system + lock-step trace inclusion + scenario oracles",
 }
 CHECKS["C06"] = {
@@ -180,11 +186,13 @@ CHECKS["C04"] = {
             "C04_queued_until_taken); CV_NON_EMPTY is set whenever the queue is non-empty outside spinlock sections (C04_non_empty); "
             "broadcast takes every queued record and signal the first (plus following readers), and every taken record is woken or handed "
             "to the mutex queue (C04_broadcast_covers, C04_signal_covers, C04_private_fate, C04_V_posts); a non-zero result only if the "
-            "waiter unlinked itself, so a wake-up is never reported as a timeout (C04_outcome, C04_outcome_waitn); no step touches a "
-            "nsync_wait_n record after its call returned (C04_no_dead_record) -- any threads / programs / schedules / clock / note.  "
+            "waiter unlinked itself, so a wake-up is never reported as a timeout (C04_outcome, C04_outcome_waitn); every signal/broadcast call "
+            "accounts for what it took (C04_wake_complete); a taken waiter always has a post available, pending or owed (C04_no_lost_wakeup), hence "
+            "no quiescent world with a waiter asleep off the queue (C04_no_stuck); no step touches a nsync_wait_n record after its call returned, "
+            "the waker's V included (C04_no_dead_record) -- any threads / programs / schedules / clock / note.  "
             "Lock-step replay with queue snapshots; stuck detector + return-value oracles over cv scenarios.",
     "design_ref": "DESIGN.md section 4, C04",
-    "note": "C04_no_stuck partial (coverage.partial); abstract mutex inside CvModel.",
+    "note": "No lost wake-up and no-stuck are theorems relative to the abstract mutex owing no post (coverage.partial); abstract mutex inside CvModel.",
     "technique": "Coq invariants over source-regenerated transition system + lock-step trace inclusion + scenario oracles",
 }
 CHECKS["C08"] = {
